@@ -100,6 +100,10 @@ impl Ctx {
     pub fn set_progress(&mut self, p: *mut u64) {
         self.progress = Some(p);
     }
+    /// address of the progress word (0 if none): forked children may bump it directly
+    pub fn progress_addr(&self) -> usize {
+        self.progress.map(|p| p as usize).unwrap_or(0)
+    }
     pub fn set_trace(&mut self, path: String) {
         // engines that run calls in other processes (Python driver) write the current call there themselves
         std::env::set_var("JLMC_TRACE", &path);
